@@ -69,6 +69,19 @@ func TestRace(t *testing.T) {
 		Run: runWith(false)})
 }
 
+// TestRaceCancel: race detector, walker alone (tasks behind a plain semaphore), with fail-fast and external cancel;
+// the completion map that Walk returns is iterated immediately, as RunBuild does.
+func TestRaceCancel(t *testing.T) {
+	theT = t
+	pbt.Main(t, pbt.Spec[walkeng.Case]{ID: "C04", WAL: true,
+		Gen: func(t *rapid.T) walkeng.Case {
+			c := walkeng.Gen(t, walkeng.GenOpts{MaxN: 80, Failures: true, Cancel: true, ZeroBias: true, RealTime: true})
+			c.NoPool = true
+			return c
+		},
+		Run: runWith(false)})
+}
+
 // TestStress: real scheduler without the race detector, including fail-fast and external cancel.
 func TestStress(t *testing.T) {
 	theT = t
